@@ -160,8 +160,12 @@ def run_unit(unit_name, rlimit=None, extra_args=()):
         owner = None
         # the diagnostic's primary span can be the contract clause; take every quoted line into account and
         # attribute the error to the function whose range contains the primary line
+        line = b['line']
+        if 'postcondition not satisfied' in b['msg'] and b['lines']:
+            # primary span = the ensures clause (possibly in a trait declaration); the body is the last quoted line
+            line = b['lines'][-1]
         for (s, e, q) in ranges:
-            if s <= b['line'] <= e:
+            if s <= line <= e:
                 owner = q
         if owner is None:
             hard.append(b)
